@@ -117,8 +117,8 @@ class AStr(Sym):
 class AMatch:
     """match object of a modelled regex on an abstract string"""
 
-    def __init__(self, ptag, s):
-        self.ptag, self.s = ptag, s
+    def __init__(self, ptag, s, pat=None, method=None):
+        self.ptag, self.s, self.pat, self.method = ptag, s, pat, method
 
     def __pyvc_getattr__(self, eng, name):
         if name == "group":
@@ -126,6 +126,24 @@ class AMatch:
                 g = a[0] if a else 0
                 return AStr(GRP(self.ptag, self.s.z, to_z3(g, "int")))
             return NativeMethod(group, self, name)
+        if name == "groups" and self.pat is not None:
+            # m.groups() = (m.group(1), ..., m.group(k)), k = number of groups of the pattern (every group of the patterns used here takes part in a match)
+            def groups(e, r, a, k):
+                if a or k:
+                    raise Unsupported("match.groups(default) on an abstract string")
+                return tuple(AStr(GRP(self.ptag, self.s.z, z3.IntVal(g))) for g in range(1, self.pat.groups + 1))
+            return NativeMethod(groups, self, name)
+        if name in ("end", "start") and self.method == "match":
+            # Pattern.match anchors at position 0: start() = 0 and end() = len(group(0))
+            def pos(e, r, a, k):
+                if a or k:
+                    raise Unsupported(f"match.{name}(group) on an abstract string")
+                if name == "start":
+                    return 0
+                z = LEN(GRP(self.ptag, self.s.z, z3.IntVal(0)))
+                e.assume(z >= 0)
+                return Sym(z, "int")
+            return NativeMethod(pos, self, name)
         raise Unsupported(f"match.{name} on an abstract string")
 
 
@@ -137,7 +155,7 @@ def _pattern_method(pat, method):
             eng.assumptions.add("re-model: pattern.search/match on an abstract line = uninterpreted predicate re_hit(method:pattern, line); groups = re_group(...)")
             t = tag(method, pat.pattern)
             if eng.branch(eng.sbool(RE_HIT(t, args[0].z))):
-                return AMatch(t, args[0])
+                return AMatch(t, args[0], pat, method)
             return None
         if M.all_concrete(args, kwargs):
             return native(*[M.unwrap(a) for a in args], **kwargs)
